@@ -169,6 +169,25 @@ def near_twin(t: Tape, text: str):
     return out if out != text else None
 
 
+def near_twins(text: str) -> list:
+    """Every distinct near-twin of ``text`` (see near_twin), in a fixed order."""
+    out, seen = [], {text}
+    for k in range(8):
+        tw = near_twin(Tape(values=[k]), text)
+        if tw is not None and tw not in seen:
+            seen.add(tw)
+            out.append(tw)
+    return out
+
+
+def doc_literal_unicode(t: Tape, marker: str) -> str:
+    """Literal zones (fenced, passed through byte for byte) holding characters with several Unicode spellings."""
+    body = t.pick(["caf\u00e9 \u00f1", "cafe\u0301 n\u0303", "\u212b \ufb01 \uff21", "\u00c5 fi A", "x\u0301\u0323 y\u0323\u0301"], "lit.body")
+    lang = t.pick(["python", "text", ""], "lit.lang")
+    return (f"===DOC===\nMETA:\n  TYPE::TEST\n  VERSION::\"1.0\"\nMARK::{marker}\nSTATUS::ACTIVE\nNOTE::\"{body}\"\nCODE::\n  ```{lang}\n  s = '{body}'\n"
+            f"  print(s)\n  ```\nRISKS::[r1,r2]\n===END===\n")
+
+
 def mutate_text(t: Tape, text: str) -> str:
     """Tape-driven corruption so that error paths and lenient repairs occur."""
     lines = text.split("\n")
@@ -235,9 +254,11 @@ def gen_call(t: Tape, idx: int, corpus: list, heavy: bool = False) -> dict:
     """One call spec.  ``corpus`` = [(name, text)] of small repository documents."""
     m = f"c{idx:x}"
     dk = t.weighted([("reporting", 5), ("small", 3), ("lenient", 2), ("corpus", 4), ("mutated", 3), ("contract", 2), ("frontmatter", 1),
-                     ("garbage", 1)], "call.doc")
+                     ("garbage", 1), ("literal_unicode", 2)], "call.doc")
     if dk == "reporting":
         text = doc_reporting(t, m)
+    elif dk == "literal_unicode":
+        text = doc_literal_unicode(t, m)
     elif dk == "small":
         text = doc_small(t, m)
     elif dk == "lenient":
